@@ -1,4 +1,5 @@
 import TM.SpanLine
+import TM.Reader
 /-!
 # TM.SpanScreen — the span buffer as the code stores it: a list of rows of runs (`SLine`) with
 the geometry of `TM.Scr`. Screen-level functions of `screen.go` on top of the row-level ones of
@@ -113,6 +114,64 @@ def SScr.inv (cw : Nat → Nat) (s : SScr) : Bool :=
   s.lines.all (lineWF cw s.w) &&
   decide (s.cx < s.w) && decide (s.cy < s.h) && decide (s.sx < s.w) && decide (s.sy < s.h) &&
   decide (s.top ≤ s.bot) && decide (s.bot < s.h)
+
+
+/-! ### `moveCursor` and the general path of `writeString` (runs of several characters) -/
+
+/-- `moveCursor(dx, dy, wrap, scroll)`, Go-shaped: with `wrap` and autowrap on, the column wraps
+    over the rows; the region scrolls only when the cursor leaves it through its top or bottom
+    row; everything is clamped to the screen in the end -/
+def SScr.moveCursor (s : SScr) (dx dy : Int) (wrap scroll : Bool) : SScr :=
+  let scroll := scroll && decide (s.top ≤ s.cy) && decide (s.cy ≤ s.bot)
+  let W : Int := s.w
+  let x0 : Int := (s.cx : Int) + dx
+  -- the two `for` loops: bring the column into [0, W) moving whole rows
+  let (x, y) : Int × Int :=
+    if wrap && s.wrap then (x0 % W, (s.cy : Int) + x0 / W)   -- Int.emod / Int.ediv: floor semantics, as the loops
+    else (max 0 (min x0 (W - 1)), (s.cy : Int))
+  let y := y + dy
+  let (s, y) : SScr × Int :=
+    if scroll then
+      let (s, y) := if y < (s.top : Int) then (s.scroll s.top s.bot ((s.top : Int) - y), (s.top : Int)) else (s, y)
+      if y > (s.bot : Int) then (s.scroll s.top s.bot ((s.bot : Int) - y), (s.bot : Int)) else (s, y)
+    else (s, y)
+  { s with cx := x.toNat, cy := clampNat y (s.h - 1) }
+
+/-- `writeString(text, width, merge = false, TextReadModeRune)`, Go-shaped. `fuel` bounds the
+    recursion on the pieces of `splitRunToFit` (one per character at most). -/
+def SScr.writeString (cw : Nat → Nat) : Nat → SScr → Bytes → Nat → SScr
+  | 0, s, _, _ => s
+  | fuel+1, s, text0, width0 =>
+    if text0.isEmpty then s else
+    let text := replaceInvalidUTF8 text0
+    let width := max width0 1
+    let split := if s.cx + width > s.w ∧ width > 1 then splitRunToFit cw text (s.w - s.cx) else none
+    match split with
+    | some (hd, hw, rs, rw) =>
+      SScr.writeString cw fuel (SScr.writeString cw fuel s hd hw) rs rw
+    | none =>
+      let tooWide := decide (width > s.w)
+      let text := if tooWide then replacementChar else text
+      let width := if tooWide then 1 else width
+      let s := if s.cx + width > s.w then
+                 (if s.wrap then s.moveCursor (-(s.cx : Int)) 1 false true else { s with cx := s.w - width })
+               else s
+      let res := writeSpanLine cw s.w s.sty (s.line s.cy) s.cx ⟨s.sty, text, 0, width⟩ true
+      let s := s.setLine s.cy res.1
+      s.moveCursor ((width + res.2.1 : Nat) : Int) 0 true true
+
+/-- what `ptyReadOne` does with a stretch of printable text that arrives in one read: the reader
+    hands over runs limited to the rest of the row (`ReadPrintableBytes(max (w - cx) 1)`), each
+    written with `writeString` -/
+def SScr.feedTextAux (cw : Nat → Nat) : Nat → SScr → Rdr → SScr
+  | 0, s, _ => s
+  | fuel+1, s, r =>
+    let (r', out) := r.readPrintable cw (max (s.w - s.cx) 1)
+    if out.text.isEmpty then s
+    else SScr.feedTextAux cw fuel (SScr.writeString cw (out.text.length + 1) s out.text out.width) r'
+
+def SScr.feedText (cw : Nat → Nat) (s : SScr) (text : Bytes) : SScr :=
+  SScr.feedTextAux cw (text.length + 1) s (Rdr.init [(text, false)])
 
 /-! ### the operations behind the control functions (as `Term.csiPlain` uses `Scr`) -/
 
